@@ -1168,9 +1168,14 @@ def oracle_c10(sc, res):
                                               f"after completion an event was sent (seq {quiet_from}) and {r[K]} {r[4:7]} followed at seq {r[SEQ]}"))
                         break
     after_stop = w.final_obs("after-stop")
-    if after_stop is not None and after_stop["census"]:
-        vios.append(Violation("C10", "alive-after-stop", {"engine": sc["engine"], "status_before": fin["status"] if fin else None},
-                              f"stop() left {after_stop['census']} alive"))
+    if after_stop is not None:
+        # a sync actor's polling thread notices the stop at its next poll (<= 10 ms): judged once the clock has moved
+        late = w.final_obs("after-stop-late")
+        left = tuple(c_ for c_ in after_stop["census"] if not str(c_).startswith("actor-")) or (tuple(late["census"]) if late else ())
+        zombies = [i_ for i_ in (after_stop.get("interps") or ()) if i_[1] == "running"]
+        if left or zombies:
+            vios.append(Violation("C10", "alive-after-stop", {"engine": sc["engine"], "status_before": fin["status"] if fin else None},
+                                  f"stop() left {left or zombies} alive"))
     return vios
 
 
